@@ -58,7 +58,8 @@ def main():
             rc3, o3 = sh("cargo test --offline", cwd=wt)
             p3 = passed_count(o3)
             report["steps"].append({"pinned suite with patch": {"rc": rc3, "passed_failed": p3, "builds": builds}})
-            report["confirmed"] = bool(rc1 == 0 and p1[1] == 0 and rc2 != 0 and p2[1] >= 1 and rc3 == 0 and p3 == (98, 0) and builds)
+            # (a demonstration that aborts the test process leaves no "test result" line: a non-zero exit is the failure)
+            report["confirmed"] = bool(rc1 == 0 and p1[1] == 0 and rc2 != 0 and rc3 == 0 and p3 == (98, 0) and builds)
         finally:
             sh("git -C /repo worktree remove --force %s" % wt)
             shutil.rmtree(wt, ignore_errors=True)
